@@ -35,24 +35,27 @@ theorem shared_symm (H : Mat) (stabs qubits : Nat → Bool) (i j : Nat) :
   intro q _
   exact Bool.and_comm _ _
 
-/-- without parallel edges the `uint8` product cannot wrap to zero off the diagonal -/
+/-- with fewer than 256 parallel edges the `uint8` product cannot wrap to zero off the diagonal -/
 theorem shared_of {H : Mat} {stabs qubits : Nat → Bool} (G : GraphOK H) {i j : Nat} (hij : i ≠ j)
     (h : ∃ q, adjq H stabs qubits i j q = true) : shared H stabs qubits i j = true := by
   obtain ⟨q, hq⟩ := h
   have hq' := (adjq_true H stabs qubits i j q).mp hq
-  have hf : (List.range (ncols H)).filter (fun q => adjq H stabs qubits i j q) = [q] := by
-    apply filter_range_unique _ _ q (G.inRange i q hq'.1).2 hq
+  have hqn := (G.inRange i q hq'.1).2
+  have hpos : 0 < cnt (ncols H) (fun q => adjq H stabs qubits i j q) := cnt_pos _ _ q hqn hq
+  have hle : cnt (ncols H) (fun q => adjq H stabs qubits i j q) ≤
+      cnt (ncols H) (fun q => hb H i q && hb H j q) := by
+    apply cnt_mono
     intro k _ hk
     have hk' := (adjq_true H stabs qubits i j k).mp hk
-    exact G.simple i j k q hij hk'.1 hk'.2.1 hq'.1 hq'.2.1
+    simp [hk'.1, hk'.2.1]
+  have hlt := G.mult i j hij
   unfold shared
   have : (List.range (ncols H)).countP
-      (fun q => subH H stabs qubits i q && subH H stabs qubits j q) = 1 := by
-    rw [List.countP_eq_length_filter]
-    have : (fun q => subH H stabs qubits i q && subH H stabs qubits j q) =
-        fun q => adjq H stabs qubits i j q := rfl
-    rw [this, hf]; rfl
-  rw [this]; rfl
+      (fun q => subH H stabs qubits i q && subH H stabs qubits j q) =
+      cnt (ncols H) (fun q => adjq H stabs qubits i j q) := rfl
+  rw [this, Nat.mod_eq_of_lt (by omega)]
+  simp
+  omega
 
 /-- the member stabilizers reachable from the root through member qubits -/
 inductive Reach (H : Mat) (stabs qubits : Nat → Bool) (root : Nat) : Nat → Prop
